@@ -76,7 +76,10 @@ PROPS = {
         "drivers": [drv("text", "debug"), drv("text", "release", tiers=T)],
     },
     "C05": {
-        "mc": L0_QUICK + L0_THOROUGH,
+        "mc": L0_QUICK + L0_THOROUGH + [
+            algo("Monty.tla", "Monty_q.cfg", workers=8), algo("Monty.tla", "Monty_cal_drop_cx.cfg", expect="violation"),
+            algo("Monty.tla", "Monty_cal_skip_sub.cfg", expect="violation"), algo("Monty.tla", "Monty_cal_rest_from_one.cfg", expect="violation"),
+            algo("Monty.tla", "Monty_t.cfg", workers=14, heap="10g", tiers=T)],
         "drivers": [drv("modpow", "debug"), drv("modpow", "release", tiers=T)],
     },
     "C08": {
